@@ -64,8 +64,18 @@ DefLeaves == <<
   DL("string-empty",         PlainStr, JStr(""), <<>>),
   DL("float-zero",           TNum("float64", NoB, NoB), JNum(0), <<>>),
   DL("alias-integer",        TRef("A1"), JInt(3), <<Def("A1", TRef("A2")), Def("A2", PlainInt)>>),
-  DL("constant-alias-string", TRef("K1"), NoJ, <<Def("K1", TConst(JStr("x")))>>)
+  DL("constant-alias-string", TRef("K1"), NoJ, <<Def("K1", TConst(JStr("x")))>>),
+  \* strings that are hostile to a hand-written literal: backslashes forming escapes (\t, \n, \x41, \\, trailing), both quotes
+  \* (token "@bs": python_common.STR_TOKENS), as default, as constant and as enum member
+  DL("string-backslashes",          PlainStr, JStr("@bs"), <<>>),
+  DL("constant-string-backslashes", TConst(JStr("@bs")), NoJ, <<>>),
+  DL("enum-backslash-member",       TEnum(<<"plain", "@bs">>), JStr("@bs"), <<>>),
+  \* a struct default overriding fields whose NAMES need quoting in CUE (dash, space, leading digit)
+  DL("struct-override-quoted-names", TRef("ChildQ"), JObj(<<P("max-value", JInt(9)), P("time-zone", JStr("x"))>>),
+     \* (a name with a space, "a b", makes the Go jenny emit a composite literal that does not parse: C02's subject)
+     <<Def("ChildQ", TStruct(<<FOptDef("max-value", PlainInt, JInt(7)), FOptDef("time-zone", PlainStr, JStr("nm")), FOptDef("min-value", PlainInt, JInt(1)), FOpt("note", PlainStr)>>))>>)
 >>
+
 
 (* -------------------------------- positions ------------------------------ *)
 DefPositions == <<"top", "optional", "ref", "anon">>
@@ -181,14 +191,45 @@ DFixedList2 == <<
   Fixed("alias-chains-scalar", <<
     Def("Root", TStruct(<<F("e", TRef("E3")), F("k", TRef("K1")), FOpt("n", TRef("N1")), FOpt("es", TArr(TRef("E3")))>>)),
     Def("E3", TRef("E2")), Def("E2", TRef("E")), DEnum, Def("K1", TRef("K2")), Def("K2", TConst(JStr("x"))),
-    Def("N1", TRef("N2")), Def("N2", TInt("int64", Ge(0), NoB))>>, FALSE)
+    Def("N1", TRef("N2")), Def("N2", TInt("int64", Ge(0), NoB))>>, FALSE),
+  \* optional / nullable date-times (alone, in arrays, in maps): documents with the field absent
+  Fixed("optional-times", <<
+    Def("Root", TStruct(<<F("t", TTime), FOpt("ot", TTime), FOptNull("ont", TTime), FNull("nt", TTime), FOpt("ats", TArr(TTime)),
+                          FOpt("mt", TMap(TTime)), FOpt("inner", TRef("Stamp"))>>)),
+    Def("Stamp", TStruct(<<FOpt("at", TTime), F("label", PlainStr)>>))>>, FALSE),
+  \* two union-typed fields whose NAMES extend each other by the suffixes a generator appends to its helper names (_ref, _array, _map,
+  \* _union): one union reached through a NAMED union / an array / a map, the sibling inline, with different branches
+  Fixed("helper-name-collisions", <<
+    Def("Root", TStruct(<<F("datasource", TRef("DS")), F("datasource_ref", TDUnion("kind", <<"Zebra", "Apple">>)),
+                          FOpt("items", TArr(TDUnion("kind", <<"Mango", "Apple">>))), FOpt("items_array", TDUnion("kind", <<"Zebra", "Mango">>)),
+                          FOpt("byKey", TMap(TDUnion("kind", <<"Zebra", "Apple">>))), FOpt("byKey_map", TDUnion("kind", <<"Mango", "Zebra">>)),
+                          FOpt("one", TDUnion("kind", <<"Apple", "Mango">>)), FOpt("one_union", TRef("DS"))>>)),
+    Def("DS", TDUnion("kind", <<"Mango", "Zebra">>)), UMango, UZebra, UApple>>, FALSE),
+  \* constants, discriminators, enum members and defaults made of characters a string literal has to escape
+  Fixed("string-literals", <<
+    Def("Root", TStruct(<<F("sep", TConst(JStr("@bt"))), F("mode", TEnum(<<"@bt", "plain">>)), FOptDef("d", PlainStr, JStr("@bt")),
+                          FOpt("u", PlainStr), F("du", TDUnion("kind", <<"Tab", "Plain">>))>>)),
+    Def("Tab", TStruct(<<F("kind", TConst(JStr("@bt"))), F("n", PlainInt)>>)),
+    Def("Plain", TStruct(<<F("kind", TConst(JStr("plain"))), FOpt("s", PlainStr)>>))>>, FALSE)
 >>
+
+\* the default declared as a disjunction of the type with a CONSTANT (compiler pass disjunction_with_constant_to_default, enabled for
+\* these units only): entry field `spell` = which branch comes first; the renderer spells anyOf:[{const}, {type}] / `"utc" | string`
+ConstDisjLeaves == <<
+  DL("disjunction-constant-string",  PlainStr, JStr("utc"), <<>>), DL("disjunction-constant-integer", PlainInt, JInt(3), <<>>),
+  DL("disjunction-constant-float",   TNum("float64", NoB, NoB), JNum(15), <<>>), DL("disjunction-constant-bool", TBool, JBool(TRUE), <<>>)
+>>
+ConstDisjEntries ==
+  LET one(sp, pos) == [i \in DOMAIN ConstDisjLeaves |-> [schema |-> DSchema(ConstDisjLeaves[i], pos), leaf |-> ConstDisjLeaves[i].name,
+                                                           pos |-> pos, cons |-> FALSE, spell |-> sp]]
+  IN one("const-first", "top") \o one("const-last", "top") \o one("const-first", "optional") \o one("const-last", "optional")
 
 DefCatalogue ==
   DFixedList
   \o [i \in 1..(Len(DefLeaves) * Len(DefPositions)) |->
         DEntry(DefLeaves[((i - 1) \div Len(DefPositions)) + 1], DefPositions[((i - 1) % Len(DefPositions)) + 1])]
   \o DFixedList2
+  \o ConstDisjEntries
 
 InDef(i)   == i > IdBase /\ (i - IdBase) \in DOMAIN DefCatalogue
 EntryOf(i) == IF InDef(i) THEN DefCatalogue[i - IdBase] ELSE Catalogue[i]
@@ -205,7 +246,8 @@ DSpec == DInit /\ [][Next]_vars
 
 DEmit ==
   LET e == EntryOf(si) IN
-  CASE Mode = "index"    -> PrintT(<<"INDEX", ToJson([id |-> si, leaf |-> e.leaf, pos |-> e.pos, cons |-> e.cons, schema |-> e.schema])>>)
+  CASE Mode = "index"    -> PrintT(<<"INDEX", ToJson([id |-> si, leaf |-> e.leaf, pos |-> e.pos, cons |-> e.cons, schema |-> e.schema,
+                                                       spell |-> IF "spell" \in DOMAIN e THEN e.spell ELSE "plain"])>>)
     [] Mode = "cases"    -> PrintT(<<"CASE", ToJson([id |-> si] @@ Expect(e.schema, dx))>>)
     [] Mode = "defaults" ->
          LET S == DefsFn(e.schema)
